@@ -96,3 +96,54 @@ def kind_and_bound_cases():
                     f"'{user}' (whose type uses '{used}') is declared "
                     f"before '{used}':\n{text}", src))
     return out
+
+
+def rename_cases():
+    """BOUNDED: a symbol that a code block (a statement PSyclone keeps as
+    text) refers to is renamed through the real SymbolTable.rename_symbol -
+    declared and used with every combination of capitalisation.  Either the
+    renaming is refused, or the written routine still compiles under
+    IMPLICIT NONE (gfortran -fsyntax-only): every entity the generated code
+    uses is declared.  Yields (case id, ok, detail, source)."""
+    import os
+    import shutil
+    import subprocess
+    import tempfile
+    from psyclone.psyir.frontend.fortran import FortranReader
+    from psyclone.psyir.backend.fortran import FortranWriter
+    from psyclone.psyir.nodes import Routine
+    from psyclone.psyir.symbols import SymbolError
+    have = shutil.which("gfortran")
+    for decl in ("total", "Total", "TOTAL"):
+        for used in ("total", "Total", "TOTAL"):
+            src = (f"subroutine s()\n  implicit none\n  real :: {decl}\n"
+                   f"  {decl} = 1.0\n  write(*,*) {used}\n"
+                   f"end subroutine s\n")
+            cid = f"declared-{decl}-used-{used}"
+            rt = FortranReader().psyir_from_source(src).walk(Routine)[0]
+            table = rt.symbol_table
+            try:
+                table.rename_symbol(table.lookup(decl), "renamed_total")
+            except SymbolError as err:
+                yield (cid, True, "refused: " + str(err.value)[:80], src)
+                continue
+            out = FortranWriter()(rt)
+            if not have:
+                yield (cid, True, "accepted; gfortran not found, not "
+                       "compiled", src)
+                continue
+            work = tempfile.mkdtemp(prefix="c04_")
+            try:
+                f90 = os.path.join(work, "s.f90")
+                with open(f90, "w", encoding="utf-8") as fout:
+                    fout.write(out)
+                r = subprocess.run(
+                    ["gfortran", "-fsyntax-only", "-fimplicit-none", f90],
+                    cwd=work, capture_output=True, text=True)
+            finally:
+                shutil.rmtree(work, ignore_errors=True)
+            ok = r.returncode == 0
+            yield (cid, ok, "renaming accepted; the written routine " + (
+                "compiles" if ok else "does not compile under implicit "
+                "none: " + " ".join(r.stderr.split())[-160:]) +
+                " | " + " ; ".join(out.strip().split("\n")), src)
